@@ -14,7 +14,6 @@ import sys
 from pathlib import Path
 
 VERIF = Path(__file__).resolve().parent.parent
-EVAL_COPY = Path("/tmp/verif_eval")
 
 
 def sh(cmd, **kw):
@@ -27,12 +26,12 @@ def main():
     tier = "thorough" if "--thorough" in sys.argv else "quick"
     meta = json.loads((mdir / "meta.json").read_text())
     pid = meta["property"]
-    repo = Path("/repo") if inplace else Path("/tmp/wt_eval")
+    # private scratch paths per evaluation: several evaluations may run at the same time
+    repo = Path("/repo") if inplace else Path(f"/tmp/wt_eval_{os.getpid()}")
+    EVAL_COPY = Path(f"/tmp/verif_eval_{os.getpid()}")
     if not inplace:
-        if not repo.exists():
-            r = sh(f"git -C /repo worktree add --detach {repo} HEAD")
-            assert r.returncode == 0, r.stderr
-        sh(f"git -C {repo} checkout -q --detach $(git -C /repo rev-parse HEAD) && git -C {repo} checkout -- . && git -C {repo} clean -fdq")
+        r = sh(f"git -C /repo worktree add --detach {repo} HEAD")
+        assert r.returncode == 0, r.stderr
     env = dict(os.environ, PYTHONPATH=str(repo), OMP_NUM_THREADS="1", VERIF_REPO=str(repo))
     # run the checks from a private copy of /verif (incl. its build products) so that regenerated
     # Gen/*.lean files and evidence of a mutated tree never land in /verif itself
@@ -59,7 +58,10 @@ def main():
             lines = [l for l in rc.stdout.splitlines() if l.startswith("VIOLATION") or l.startswith("  ")][:6]
             res["checks"][c] = {"rc": rc.returncode, "violations": lines, "tail": rc.stdout.splitlines()[-2:]}
     finally:
-        sh(f"git -C {repo} checkout -- . && git -C {repo} clean -fdq")
+        if inplace:
+            sh(f"git -C {repo} checkout -- . && git -C {repo} clean -fdq")
+        else:
+            sh(f"git -C /repo worktree remove --force {repo}; rm -rf {EVAL_COPY}")
     res["caught"] = any(v["rc"] == 1 for v in res.get("checks", {}).values())
     print(json.dumps(res))
 
